@@ -182,6 +182,35 @@ pub fn corr(ctx: &mut Ctx) {
             ctx.mark_nontrivial();
         }
     }
+    // many resets between the draws that wrote the array and the block under test: a lazy reset that keeps a
+    // generation or reset counter in a narrow integer fails exactly at 2^8 / 2^16 resets (implementation only)
+    let reset_counts: Vec<usize> = if ctx.quick() { vec![255, 256, 257, 65_535, 65_536, 65_537] } else { vec![255, 256, 257, 511, 512, 65_535, 65_536, 65_537, 65_536 + 256, 131_072, 1 << 20] };
+    for (ci, nreset) in reset_counts.iter().enumerate() {
+        for m in [2usize, 5, 16] {
+            for sparse_draws in [false, true] {
+                ctx.begin_case(&format!("fy m={} resets={} draws_between={}", m, nreset, sparse_draws));
+                ctx.count("op=many resets");
+                ctx.mark_nontrivial();
+                let mut fy = FYshuffle::new(m);
+                let mut g = Xoshiro256PlusPlus::seed_from_u64(ctx.rng.next());
+                for _ in 0..m { fy.next(&mut g); }              // writes every slot
+                for i in 0..*nreset {
+                    fy.reset();
+                    if sparse_draws && i + 1 < *nreset && (i % 1000 == 7 || i + 3 == *nreset) { fy.next(&mut g); }
+                }
+                let words: Vec<u64> = (0..2 * m + ci).map(|_| word(ctx)).collect();
+                let mut r1 = Scripted { words: words.clone(), pos: 0 };
+                let mut r2 = Scripted { words: words.clone(), pos: 0 };
+                let mut fresh = FYshuffle::new(m);
+                let a = catch(std::panic::AssertUnwindSafe(|| (0..words.len()).map(|_| fy.next(&mut r1)).collect::<Vec<usize>>()));
+                let b: Vec<usize> = (0..words.len()).map(|_| fresh.next(&mut r2)).collect();
+                if a.as_ref().ok() != Some(&b) || fy.get_values() != fresh.get_values() {
+                    ctx.oracle_failure(serde_json::json!({"kind":"impl_violates_property","what":"draws after reset depend on history (many resets before)","m":m,"resets":nreset,
+                        "draws_between_resets":sparse_draws,"after_resets":format!("{:?}",a),"fresh":b}));
+                }
+            }
+        }
+    }
     // the float product at the only critical point: xsi = 1 - 2^-52 for every remaining length
     let nmax = ctx.n(1 << 12, 1 << 20);
     ctx.begin_case("fy top-of-unit-interval offsets");
